@@ -220,6 +220,13 @@ func (w *oracleWorkload) Next(block int) []rig.Tx {
 			}
 			out = append(out, r.Mk(creator, &orTag{Kind: "create", Feed: name}, msg))
 		}
+		if !w.quiet {
+			// a feed whose aggregate function is named in another letter case: refused, or else it has to aggregate
+			creator := r.Acc(3)
+			out = append(out, r.Mk(creator, &orTag{Kind: "create", Feed: "feedcase"}, &oracletypes.MsgCreateFeed{FeedName: "feedcase", LatestHistory: 3, Description: "d", Creator: creator.Addr.String(), ServiceName: orSvc,
+				Providers: []string{w.provs[0].Addr.String()}, Input: `{"header":{},"body":{}}`, Timeout: 2, ServiceFeeCap: sdk.NewCoins(sdk.NewInt64Coin(rig.BondDenom, 10)), RepeatedFrequency: 3,
+				AggregateFunc: pick(rng, "Avg", "MAX", "miN"), ValueJsonPath: "last", ResponseThreshold: 1}))
+		}
 		return out
 	}
 	// answers
@@ -349,7 +356,7 @@ func exactAggregate(agg string, xs []*big.Rat) (*big.Rat, *big.Rat) {
 	for _, x := range xs {
 		sumAbs.Add(sumAbs, new(big.Rat).Abs(x))
 	}
-	switch agg {
+	switch strings.ToLower(agg) {
 	case "max":
 		for _, x := range xs[1:] {
 			if x.Cmp(res) > 0 {
